@@ -10,6 +10,9 @@ from harness.extract import database as x_db
 from harness.extract import database_tr as x_tr
 from harness.extract import database_ftp_tr as x_ftp
 from harness.extract import database_client_tr as x_cli
+from harness.extract import database_tick_tr as x_tick
+from harness.extract import database_conn_writers as x_cw
+from harness.extract import database_bot_tr as x_bot
 from harness.rigs import database as rig
 
 MANIFEST = {
@@ -51,8 +54,26 @@ MANIFEST = {
             "query is sent only over such an id (C17_client_queries_own_connection). (8) file-system REQUESTS on database/ and "
             "downloads/ (deleted copies modelled, restore of a deleted copy), re-install with non-default fixing duration / starting "
             "health, compromise on the FTP client; what happens to the stored backup when it is deleted or the service re-installed "
-            "(orphans, C17_no_backup_stays_none_run). Tie: regenerated tables (Gen/Database.lean, C17_gen_*), the translated functions "
-            "(39 method instances, one obligation each), and differential rig R-db on real client/server/backup hosts behind a router.",
+            "(orphans, C17_no_backup_stays_none_run). ROUND 7: (9) the TICK path and the life-cycle methods are translated along the class "
+            "chain the way Python dispatches them (DatabaseService.apply_timestep -> Service.apply_timestep -> Software.apply_timestep -> "
+            "DatabaseService._update_fix_status -> Software._update_fix_status -> restore_backup; Software.fix; Service.stop / start / "
+            "pause / resume / restart / disable / enable; Gen/DatabaseTickTr.lean, with `_fixing_countdown : Optional[int]` and "
+            "`restart_countdown : int` as the code has them) and PROVED EQUAL to the model's tickSvc / Server.request / svcStart / "
+            "svcStop for every state (C17_tr_tick_svc, C17_tr_lifecycle, C17_tr_start_stop): backup at timestep 1 and at no other, "
+            "decrement-then-test of the fix countdown, test-then-decrement of the restart countdown, restore in the very tick the fix "
+            "completes, are proof obligations; the same for the FTP client of the database host along ITS class chain "
+            "(C17_tr_tick_ftpc, C17_tr_ftpc_admin). (10) the frame of the connection-table theorems - which code can write "
+            "`_connections` at all - is regenerated from the whole source tree and compared (C17_gen_table_writers). (11) the rig's "
+            "digest shows the live countdowns (FIXING(n), RESTARTING(n), also the FTP client's); the (halt, offset, duration) "
+            "combinations of the fix race (70) and the (fixing_duration, restart_duration) pairs 0..3 x 0..3 are ENUMERATED on every "
+            "run; the `_process_sql` grid (file state x service health x query, 72 cells, each over a live / forged / closed / missing id) "
+            "and the password grid (16 cells) as well. (12) the data-manipulation bot's stage machine (_logon, _perform_port_scan, "
+            "_establish_db_connection, _perform_data_manipulation, _application_loop) is translated (Gen/DatabaseBotTr.lean) and proved "
+            "equal, for every bot state and every outcome of its calls, to the closed form State.dmAttack is written in "
+            "(C17_tr_dm_advance, C17_tr_dm_loop; likewise the ransomware script's _application_loop / _perform_ransomware_encrypt / "
+            "_establish_db_connection and State.ransom, C17_tr_rs_loop; the step from that closed form to State.dmAttack itself is by the shared helper "
+            "functions dmAdvance / dmRepeatRule and the rig, not a theorem). Tie: regenerated tables (Gen/Database.lean, C17_gen_*), the translated functions "
+            "(59 method instances, one obligation each), and differential rig R-db on real client/server/backup hosts behind a router.",
     "note": "C17-specific: the network between hosts is abstracted to per-direction reachability flags (validated by the rig "
             "with real ACL rules, NIC state and node power); the FTP transfers are modelled as far as the database uses them "
             "(`ftpSendFile` / `ftpRequestFile`: since round 4 proved equal to the translated FTP code; what stays hand-written is "
@@ -66,7 +87,7 @@ MANIFEST = {
     "design_ref": "5/C17",
 }
 MODULES = ["PrimaiteModel.Props.C17", "PrimaiteModel.Props.C17Gen", "PrimaiteModel.Props.C17Run", "PrimaiteModel.Props.C17Recv", "PrimaiteModel.Props.C17Ftp",
-           "PrimaiteModel.Props.C17Client", "PrimaiteModel.Lemmas.DatabaseReach"]
+           "PrimaiteModel.Props.C17Client", "PrimaiteModel.Props.C17Tick", "PrimaiteModel.Props.C17Bot", "PrimaiteModel.Lemmas.DatabaseReach"]
 EXE = "drv_c17"
 
 
@@ -128,6 +149,8 @@ def replay(rec: dict) -> bool:
 def run(ctx: Ctx):
     with lean_lock():
         ctx.extract(x_db.GEN_NAME, x_db.emit)
+        for what in x_db.SOFT:    # a rewritten (translated) method whose old shape test no longer applies: evidence only
+            ctx.count("table-shape-superseded-by-translation:" + what)
         ctx.extract(x_tr.GEN_NAME, x_tr.emit)
         for fname, *_ in x_tr.FUNCS:   # one obligation per translated method: an untranslatable one does not hide the others
             ctx.oblige(f"translate:{fname}", "extractor", fname not in x_tr.FAILED, x_tr.FAILED.get(fname, ""))
@@ -139,6 +162,19 @@ def run(ctx: Ctx):
         for fname, why in sorted(x_cli.FAILED.items()):
             ctx.oblige(f"translate-client:{fname}", "extractor", False, why)
         ctx.oblige("translate-client:all-10-functions", "extractor", not x_cli.FAILED, "; ".join(sorted(x_cli.FAILED)))
+        ctx.extract(x_cw.GEN_NAME, x_cw.emit)
+        ctx.extract(x_bot.GEN_NAME, x_bot.emit)
+        for mname in x_bot.ORDER:   # the data-manipulation bot's stage machine (round 7)
+            ctx.oblige(f"translate-bot:{mname}", "extractor", mname not in x_bot.FAILED and "class" not in x_bot.FAILED,
+                       x_bot.FAILED.get(mname, x_bot.FAILED.get("class", "")))
+        for mname in x_bot.RS_ORDER:   # the ransomware script
+            ctx.oblige(f"translate-bot:rs:{mname}", "extractor", "rs:" + mname not in x_bot.FAILED and "rs:class" not in x_bot.FAILED,
+                       x_bot.FAILED.get("rs:" + mname, x_bot.FAILED.get("rs:class", "")))
+        ctx.extract(x_tick.GEN_NAME, x_tick.emit)
+        for mname, lname, _ in x_tick.ROOTS:   # tick path + life-cycle methods (round 7): one obligation per root method
+            ctx.oblige(f"translate-tick:{mname}", "extractor", mname not in x_tick.FAILED, x_tick.FAILED.get(mname, ""))
+        for mname, lname, _ in x_tick.FTPC_ROOTS:   # the FTP client's tick and countdown-loading methods
+            ctx.oblige(f"translate-tick:ftpc:{mname}", "extractor", "ftpc:" + mname not in x_tick.FAILED, x_tick.FAILED.get("ftpc:" + mname, ""))
         ctx.prove(MODULES, exes=[EXE], clean=False, leanchecker=ctx.thorough)
     ctx.cov["rule"] = ("case = (number of clients 1..4, session limit, passwords, durations, ransomware presence, op sequence over "
                        "connect / handle+raw+native query / disconnect / forged+foreign ids / execute / uninstall+install / "
@@ -175,10 +211,26 @@ def run(ctx: Ctx):
         case, impl = rig.gen_backups_and_run(rng2)
         cases.append((f"backups:{k}", case))
         pre[f"backups:{k}"] = impl
-    for k in range(ctx.scale(50, 500)):
-        case, impl = rig.gen_fixrace_and_run(rng2)
+    # fixrace: the 70 (halt, j, c) combinations are ENUMERATED on every run (round 7); thorough adds random ones
+    for k in range(len(rig.FIXRACE_ALL) + ctx.scale(0, 430)):
+        case, impl = rig.gen_fixrace_and_run(rng2, force=rig.FIXRACE_ALL[k] if k < len(rig.FIXRACE_ALL) else None)
         cases.append((f"fixrace:{k}", case))
         pre[f"fixrace:{k}"] = impl
+    # countdowns: every (fixing_duration, restart_duration) in 0..3 x 0..3, ENUMERATED
+    for c in range(4):
+        for r in range(4):
+            case, impl = rig.gen_countdowns_and_run(rng2, c, r)
+            cases.append((f"countdowns:{c}:{r}", case))
+            pre[f"countdowns:{c}:{r}"] = impl
+    # the `_process_sql` grid (72 cells) and the password grid (16 cells), ENUMERATED
+    for k, (f, h, q) in enumerate(rig.SQLGRID_ALL):
+        case, impl = rig.gen_sqlgrid_and_run(rng2, f, h, q)
+        cases.append((f"sqlgrid:{f}:{h}:{q}", case))
+        pre[f"sqlgrid:{f}:{h}:{q}"] = impl
+    for sp, cp in rig.PWGRID_ALL:
+        case, impl = rig.gen_pwgrid_and_run(rng2, sp, cp)
+        cases.append((f"pwgrid:{sp}:{cp}", case))
+        pre[f"pwgrid:{sp}:{cp}"] = impl
     impl_all, lines_all, bounds = [], [], []
     for name, case in cases:
         impl = pre[name] if name in pre else rig.run_impl(case)
